@@ -14,8 +14,13 @@ for d in sorted(glob.glob(f"{out}/C*/m*")):
     if only and pid not in only: continue
     if not all(os.path.isfile(f"{d}/{f}") for f in ("patch.diff", "demo.rs")):
         print(pid, mk, "incomplete"); continue
-    r = subprocess.run([f"{ROOT}/tools/seed_verify.sh", d], capture_output=True, text=True)
-    line = (r.stdout.strip().splitlines() or ["?"])[-1]
+    pre = os.environ.get("SEED_VERDICTS")  # optional: output lines of tools/seed_verify.sh runs done beforehand (in parallel)
+    line = None
+    if pre:
+        line = next((l.strip() for l in open(pre) if l.startswith(d + " ")), None)
+    if line is None:
+        r = subprocess.run([f"{ROOT}/tools/seed_verify.sh", d], capture_output=True, text=True)
+        line = (r.stdout.strip().splitlines() or ["?"])[-1]
     ok = "VERDICT=ok" in line
     print(pid, mk, line.split(" ", 1)[-1], flush=True)
     if not ok: continue
